@@ -119,6 +119,12 @@ class C17(Check):
                 reads += simreads.pair_up(r, 2 * rl + 120) if paired else r
             for c in range(2):
                 reads += sim.neutral(rl, 20, f"n{c}")
+            if w.spec.pseudo:
+                # a few reads with a deletion in the pseudogene, i.e. outside the RefSeq-mapped part
+                p0 = worlds.OFFS[build][1] - 1
+                for k in range(6):
+                    st_ = p0 + 120 + 7 * k
+                    reads.append((f"pdel{k}", st_, sim.G[st_:st_ + 30] + sim.G[st_ + 33:st_ + 63], "30M3D30M"))
             spath = os.path.join(d, "sample.bam")
             simreads.write_bam(spath, reads)
             nr = w.neutral(build)
@@ -183,6 +189,24 @@ class C17(Check):
                 v.append(("dump/solutions-differ", f"{where}: original {[x[5] for x in a]}, replay {[x[5] for x in b]}"))
             elif any(abs(x[0] - y[0]) > 1e-2 or abs(x[2] - y[2]) > 1e-2 for x, y in zip(a, b)):
                 v.append(("dump/scores-differ", f"{where}: {[(x[0], x[2]) for x in a]} vs {[(y[0], y[2]) for y in b]}"))
+        # evidence level: the replayed sample must hold the evidence of the original run
+        if not params and spec != "NA10860":
+            from aldy.sam import Sample
+            from aldy.profile import Profile
+            from aldy.gene import Gene
+            g1 = Gene(gene_arg, genome=build)
+            s1 = Sample(g1, Profile.load(g1, ppath, w.neutral(build)), spath)
+            g2 = Gene(gene_arg, genome=build)
+            s2 = Sample(g2, None, pre + ".tar.gz")
+            d1 = {p_: {o_: len(l_) for o_, l_ in x.items()} for p_, x in s1.coverage._coverage.items()}
+            d2 = {p_: {o_: len(l_) for o_, l_ in x.items()} for p_, x in s2.coverage._coverage.items()}
+            if d1 != d2:
+                bad = [(p_, d1.get(p_), d2.get(p_)) for p_ in sorted(set(d1) | set(d2)) if d1.get(p_) != d2.get(p_)][:3]
+                v.append(("dump/evidence-differs", f"{where}: (position, original, replay) {bad}"))
+            r1c = {k_: round(x_, 6) for k_, x_ in s1.coverage._region_coverage.items()}
+            r2c = {k_: round(x_, 6) for k_, x_ in s2.coverage._region_coverage.items()}
+            if r1c != r2c:
+                v.append(("dump/region-depth-differs", f"{where}: {[(k_, r1c[k_], r2c.get(k_)) for k_ in r1c if r1c[k_] != r2c.get(k_)][:3]}"))
         # sample name
         if o1 and o2:
             n1 = {l.split("\t")[0] for l in o1.splitlines() if l and not l.startswith("#")}
